@@ -173,6 +173,50 @@ def two_requests(start: int, dup: bool) -> bool:
                and r2.header.system == (start + 2) % 2**32 and r2.header.function == 4 and len(p._response_queues) == 0)
 
 
+def counter_schedules():
+    """E3: two threads call the real get_next_system_counter at once; z3 searches all schedules of the real bytecode for one that
+    hands out the same system bytes twice (any start value, incl. the wrap at 2^32). A model is replayed on real threads."""
+    import dis
+    import z3
+    from engine import ilv
+    fn = Protocol.get_next_system_counter
+    ins = [i for i in dis.get_instructions(fn) if i.opname != "CACHE"]
+    locks = tuple(a.argval for a, b in zip(ins, ins[1:]) if a.opname == "LOAD_ATTR" and b.opname == "BEFORE_WITH")
+    try:
+        prog = ilv.Program(fn, lock_attrs=locks)
+        # reachability witness: both threads can finish and return different ids
+        w = ilv.search(prog, 2, lambda sh: [sh["_system_counter"] == 5], lambda rets, sh: rets[0] != rets[1], timeout_ms=120000)
+        if w["result"] != "sat":
+            return {"state": "unknown", "extra": {"witness": w}}
+        r = ilv.search(prog, 2, lambda sh: [sh["_system_counter"] >= 0, sh["_system_counter"] < 2**32],
+                       lambda rets, sh: z3.Or(rets[0] == rets[1], rets[0] < 0, rets[0] >= 2**32, rets[1] < 0, rets[1] >= 2**32),
+                       timeout_ms=400000)
+    except ilv.Unsupported as e:
+        return {"state": "unknown", "extra": "bytecode outside the E3 subset: " + str(e)}
+    extra = {"bytecode": prog.describe(), "locks": list(locks), "threads": 2, "steps": r["steps"], "witness_rets": w.get("rets"),
+             "granularity": "thread switch between any two bytecodes; switches only considered after shared-state bytecodes (POR)"}
+    if r["result"] == "unsat":
+        return {"state": "confirmed", "solver_calls": 2, "solver_s": r["solver_s"] + w["solver_s"], "paths": r["steps"], "extra": extra}
+    if r["result"] != "sat":
+        return {"state": "unknown", "extra": extra}
+
+    class P:
+        pass
+
+    def mk():
+        import threading as _t
+        p = P()
+        p._system_counter = r["start"]["_system_counter"]
+        for lk in locks:
+            setattr(p, lk, _t.Lock())
+        return p
+    got = ilv.replay(fn, mk, r["schedule"], 2)
+    rep = got[0] is not None and got[0] == got[1]
+    return {"state": "refuted", "reproduced": rep, "cex": {"start": r["start"], "schedule": r["schedule"], "model_returns": r["rets"],
+                                                            "replayed_returns": got},
+            "detail": "two concurrent callers received identical system bytes", "extra": extra}
+
+
 def dispatcher_lifecycle():
     """start/stop sequences of the real ProtocolDispatcher with real threads: at most one live receiver and one live
     dispatcher thread at any time, none after stop (finite enumeration of all sequences of length <= 4, no solver)"""
@@ -219,6 +263,11 @@ OBLIGATIONS = [
          functions=["Protocol.send_and_waitfor_response/_get_queue_for_system/_remove_queue", "HsmsProtocol.send path"],
          bounds="any counter start; reply during send / send failure / timeout / foreign reply: queue registered before sending, "
                 "removed afterwards, only the matching reply returned"),
+    dict(name="counter_schedules", fn="counter_schedules", kind="native", timeout=900,
+         functions=["Protocol.get_next_system_counter (live bytecode via dis, CPython 3.12)"],
+         bounds="2 threads, one call each, every schedule of the bytecodes (56 steps), every start value 0..2^32-1; replay of a model on "
+                "real threads with sys.monitoring INSTRUCTION hand-over",
+         outside="3 or more threads (z3 did not decide the 84-step system in 200 s); more than one call per thread"),
     dict(name="two_requests", fn="two_requests", timeout=300,
          functions=["Protocol.send_and_waitfor_response twice", "queue registration / removal"],
          bounds="any counter start; first reply delivered once or twice; the second requester gets only its own reply"),
